@@ -195,10 +195,14 @@ def hcco_fit(ei_cal, ff_cal):
         slope = 0.0
     else:
         slope = math.log(e_a / e_i) / math.log(f_a / f_i)
+    raw_slope = slope
     if slope == 0.0:
         ff_break = f_a
     else:
-        ff_break = f_i * math.pow(level / e_i, 1.0 / slope)
+        # intersection of the slanted line with the level, in log space so that a nearly flat
+        # or nearly vertical line cannot overflow
+        ln_break = math.log(f_i) + math.log(level / e_i) / slope
+        ff_break = math.inf if ln_break > 700.0 else (0.0 if ln_break < -700.0 else math.exp(ln_break))
     base_f, base_e = f_i, e_i
     if ff_break > f_c:
         ff_break = f_c
@@ -215,6 +219,7 @@ def hcco_fit(ei_cal, ff_cal):
             return _be
         return _be * math.pow(ff / _bf, _s)
 
+    lower.slope, lower.raw_slope, lower.base_f = slope, raw_slope, base_f
     return ff_break, level, lower
 
 
